@@ -233,6 +233,23 @@ Fixpoint lower_stmt (fd : bool) (s : stmt) (st : lst) {struct s} : res (list sir
           Ok (XI (IOpaque 3) :: cb_, release r1 s3)
       end
   | SFlush => Err EIll
+  | SFutAddX a b n o m =>
+      (* Future._get_access_commands with a Future index: the index is loaded into the first
+         inactive register (held only while its commands are built), once for the load of self
+         and once for the store back, both computed while the temporary of self is held *)
+      let* (t, st1) := take st in
+      let* (ti, st1i) := take st1 in
+      let st1' := release ti st1i in
+      let* (lo, y, ts, st2) := low_src o st1' in
+      Ok (map XI ([ILoad (R ti) b (PImm (Z.of_nat n)); ILoad (R t) a (PReg (R ti))] ++ lo ++
+                  [add_instr (R t) (R t) y m;
+                   ILoad (R ti) b (PImm (Z.of_nat n)); IStore (PReg (R t)) a (PReg (R ti))]),
+          release_all ts (release t st2))
+  | SMeasFutX q ip a b n =>
+      let* (m, c, st1) := low_meas q ip false st in
+      let* (ti, st1i) := take st1 in
+      Ok (c ++ [XI (ILoad (R ti) b (PImm (Z.of_nat n))); XI (IStore (PReg (M m)) a (PReg (R ti)))],
+          release ti st1i)
   end
 with lower_block (fd : bool) (b : block) (st : lst) {struct b} : res (list sir * lst) :=
   match b with
